@@ -44,7 +44,8 @@ func fnDel(ctx *cmdContext, args map[string]any) (output respValue, err error) {
 }
 
 func fnUnlink(ctx *cmdContext, args map[string]any) (output respValue, err error) {
-	return doDelete(ctx, args, false)
+	// (nothing ever reclaims an object that is only marked as expired: WATCH, for one, still finds it)
+	return doDelete(ctx, args, true)
 }
 
 func fnExists(ctx *cmdContext, args map[string]any) (output respValue, err error) {
